@@ -75,3 +75,38 @@ Proof.
     lia.
 Qed.
 Print Assumptions C10_char_classes_are_source.
+
+(* CLASSIFICATION, completeness direction (Lemmas/LexPrint.v): text of each documented shape, followed by whitespace, one of the
+   separators ) ] } , ; : or the end of input, IS read as the corresponding token - for every table whose operators contain
+   neither whitespace nor a separator and whose word operators consist of name characters:
+   - a symbolic operator along whose characters every prefix is registered is taken whole (longest match by greedy extension);
+   - a registered word is an operator token when it is the whole word; an identifier that is neither a keyword nor an operator
+     word is a name - a function name exactly when the next visible character is `(`;
+   - true / false are booleans; digits with at most one point that denote a decimal are that number; a quoted run without
+     its quote character is a string with exactly that payload. *)
+From EE Require Import LexerWs LexPrint.
+Theorem C10_classification_complete : forall tbl,
+  (forall w x, is_ws x = true -> is_op tbl (w ++ [x]) = false) ->
+  (forall w, is_op tbl w = true -> forallb is_param_char w = true \/ match w with c :: _ => is_special c = true | [] => True end) ->
+  (forall w x, w <> [] -> ksep x = true -> is_op tbl (w ++ [x]) = false) ->
+  forall cur g k, forallb is_ws g = true -> kstop k ->
+  (forall c bt, is_special c = true -> pops tbl [c] bt ->
+     lex_one tbl cur (g ++ c :: bt ++ k) = LTok (mkst (TOp (c :: bt)) (cur + blen g) (cur + blen g + ulen c + blen bt)) (cur + blen g + ulen c + blen bt) k) /\
+  (forall c bt, wordstart c -> forallb not_ws_delim (c :: bt) = true -> is_op tbl (c :: bt) = true ->
+     lex_one tbl cur (g ++ c :: bt ++ k) = LTok (mkst (TOp (c :: bt)) (cur + blen g) (cur + blen g + ulen c + blen bt)) (cur + blen g + ulen c + blen bt) k) /\
+  (forall c bt, wordstart c -> is_param_char c = true -> forallb is_param_char bt = true -> is_op tbl (c :: bt) = false -> is_kw (c :: bt) = false ->
+     lex_one tbl cur (g ++ c :: bt ++ k) =
+     LTok (mkst (if next_is_lparen 0 k then TFunc (c :: bt) else TRef (c :: bt)) (cur + blen g) (cur + blen g + ulen c + blen bt)) (cur + blen g + ulen c + blen bt) k) /\
+  (forall c w d, is_digit09 c = true -> forallb (fun x => is_digit09 x || (x =? c_dot)) w = true -> dec_of_string (c :: w) = Some d ->
+     lex_one tbl cur (g ++ c :: w ++ k) = LTok (mkst (TNum d) (cur + blen g) (cur + blen g + ulen c + blen w)) (cur + blen g + ulen c + blen w) k) /\
+  (forall q w, is_quote q = true -> forallb (fun c => negb (c =? q)) w = true ->
+     lex_one tbl cur (g ++ q :: w ++ q :: k) = LTok (mkst (TStr w) (cur + blen g) (cur + blen g + 1 + blen w + 1)) (cur + blen g + 1 + blen w + 1) k).
+Proof.
+  intros tbl H1 H2 H3 cur g k Hg Hk. repeat split; intros.
+  - apply lex_symop; assumption.
+  - apply lex_wordop; assumption.
+  - apply (lex_name tbl H2); try assumption. apply (kstop_param k Hk).
+  - apply lex_number; assumption.
+  - apply lex_string; assumption.
+Qed.
+Print Assumptions C10_classification_complete.
